@@ -556,15 +556,21 @@ Fixpoint reader_trace (cfg : ccfg) (counts : list N) (s : cst) (r : bytes) : lis
 (* n copies of a list; lets generated case files write long bodies compactly *)
 Definition lrep (u : list N) (n : N) : list N := N.iter n (app u) [].
 
-(* bytes of the UTF-8 form of a code point (token text, utf8.AppendRune: U+FFFD for
-   surrogates and values beyond U+10FFFF, also for the negative runes that values
-   of 2^31 and more turn into) *)
+(* bytes of the UTF-8 form of a code point (token text, utf8.AppendRune: U+FFFD, 3 bytes,
+   for anything that is not a Unicode scalar value; since /repo 9d7e9c8 no such value
+   reaches appendCodepoint any more, see [cte_scalar_ok]) *)
 Definition rune_len (c : N) : N :=
   if c <? 128 then 1
   else if c <? 2048 then 2
   else if ((55296 <=? c) && (c <=? 57343)) || (1114111 <? c) then 3
   else if c <? 65536 then 3
   else 4.
+
+(* parseHexCodepoint since /repo commit 9d7e9c8: a code point escape whose value is a
+   surrogate (U+D800..DFFF) or lies beyond U+10FFFF makes the listener panic (before
+   that fix such values were appended as U+FFFD) *)
+Definition cte_scalar_ok (v : N) : bool :=
+  (v <=? 1114111) && negb ((55296 <=? v) && (v <=? 57343)).
 
 Record cacc := { c_len : N; c_cap : N; c_al : N; c_work : N }.
 (* a fresh listener: arrayData is nil *)
@@ -649,7 +655,9 @@ Fixpoint cte_body (fuel : nat) (inp : list N) (s : cacc) : option cacc :=
         | e :: r2 =>
           if e =? 91 then
             match cte_hex r2 false (Some 0) with
-            | Some (Some v, r3) => cte_body f r3 (acc_rune (rune_len v) s)
+            | Some (Some v, r3) =>
+                if cte_scalar_ok v then cte_body f r3 (acc_rune (rune_len v) s)
+                else None                                  (* parseHexCodepoint panics: the decode ends in an error here *)
             | _ => None
             end
           else if (e =? 10) || (e =? 13) then cte_body f (cte_skip_ws r2) s
